@@ -54,6 +54,17 @@ func init() {
 			dir, cleanup := core.Scratch("replay")
 			defer cleanup()
 			r.Cfg.FileDir = dir
+			if r.Cfg.SQLTemplate != "" {
+				// the template database of the exploration is gone with its scratch space: make a new one
+				tmpl, err := sqliteTemplateDB()
+				if err != nil {
+					return false, "", err
+				}
+				r.Cfg.SQLTemplate = dir + "/template.db"
+				if err := os.WriteFile(r.Cfg.SQLTemplate, tmpl, 0o644); err != nil {
+					return false, "", err
+				}
+			}
 		}
 		sp := def(r.Cfg)
 		mons := sp.mons()
